@@ -51,7 +51,12 @@ def build(ctx):
         import os
         import tempfile
         from . import env as _env
-        ctx.wal_lines = _env.install_wal_stub()
+        io = cfg.get('wal_io')
+
+        async def _slow_write(path, text):
+            # file I/O takes (symbolic) time: other things, e.g. a handler time-out, can happen meanwhile
+            await asyncio.sleep(ctx.vals[io])
+        ctx.wal_lines = _env.install_wal_stub(on_write=_slow_write if io else None)
     for b in cfg['buses']:
         kw = {}
         if b in par:
@@ -155,7 +160,11 @@ def _label(ctx, inv, label):
 async def _run_script(ctx, inv, ev, script):
     for st in script:
         op = st[0]
-        if op == 'sleep':
+        if op == 'only':
+            # the rest of the script applies to events of one type only (wildcard handlers)
+            if ev is not None and ev.event_type != st[1]:
+                return None
+        elif op == 'sleep':
             await inv.sleep(_val(ctx, st[1]))
         elif op == 'disp':
             _, bus, cls, label = st[:4]
